@@ -207,7 +207,12 @@ func encodeH2Half(o *h1out, ops []FrameOp) {
 			}
 			must(fr.WriteDataPadded(op.Sid, op.End, pieces(op.Data), pad))
 		case "settings":
-			must(fr.WriteSettings(http2.Setting{ID: http2.SettingInitialWindowSize, Val: 65535 + op.Val}))
+			if op.Hts != nil {
+				must(fr.WriteSettings(http2.Setting{ID: http2.SettingInitialWindowSize, Val: 65535 + op.Val},
+					http2.Setting{ID: http2.SettingHeaderTableSize, Val: *op.Hts}))
+			} else {
+				must(fr.WriteSettings(http2.Setting{ID: http2.SettingInitialWindowSize, Val: 65535 + op.Val}))
+			}
 		case "settings_ack":
 			must(fr.WriteSettingsAck())
 		case "ping":
@@ -242,6 +247,10 @@ func must(err error) {
 func encodeH2(sc *H2Script) (c, s *h1out) {
 	c, s = &h1out{side: "c"}, &h1out{side: "s"}
 	if sc.Mode == "h2c" && sc.Upgrade != nil {
+		for i := range sc.Pre {
+			encodeH1Request(c, &sc.Pre[i])
+			encodeH1Response(s, &sc.Pre[i])
+		}
 		encodeH1Request(c, sc.Upgrade)
 		encodeH1Response(s, sc.Upgrade)
 	}
